@@ -115,15 +115,25 @@ class CBloomDriver:
                 ctx.op("remove_absent", ki)
                 return self.verify(f"after {op}")
             kind, op = "add", ["add", op[1], 1 + op[2] % 3]
+        self.nops = getattr(self, "nops", 0) + 1
+        alt = self.nops % 3 == 0
+        if alt:
+            self.feats.add("alt_api")
         if kind == "add":
             n = op[2]
-            ctx.call(self.noexc, o.add, k, n)
+            if alt:
+                ctx.call(self.noexc, o.add_alt, o.hashes(k), n)
+            else:
+                ctx.call(self.noexc, o.add, k, n)
             self.true[k] += n
             ctx.op("add", ki, n)
         else:
             n = 1 + op[2] % self.true[k]
             shared = any(j != k and self.true[j] > 0 and set(self.cells[j]) & set(self.cells[k]) for j in self.pool)
-            ctx.call(self.noexc, o.remove, k, n)
+            if alt:
+                ctx.call(self.noexc, o.remove_alt, o.hashes(k), n)
+            else:
+                ctx.call(self.noexc, o.remove, k, n)
             self.true[k] -= n
             self.feats.add("remove")
             if shared:
@@ -139,6 +149,7 @@ class CBloomDriver:
         if lo:
             for k in self.pool:
                 c = ctx.call(self.noexc, o.check, k)
+                ctx.check(lo, ctx.call(self.noexc, o.check_alt, o.hashes(k)) == c, lambda: f"{what}: check_alt(hashes({k!r})) differs from check")
                 ctx.check(lo, c >= self.true[k], lambda: f"{what}: check({k!r}) = {c} below the outstanding count {self.true[k]}")
                 ctx.check(lo, ((k in o) is True) == (c > 0) or (k in o) == c, f"{what}: `in` disagrees with check")
         u = self._o("undo")
